@@ -42,6 +42,7 @@ META = {
         " Message kinds 'l' / 't': labels as a kicker sends them (prepared text + labels_types), fully typed and with un-typed labels added later by a client middleware."
         " Finite wait_tasks_timeout (0, 0.3; thorough 0.1 too) with a stop request at any point: a taken message is either still in processing when listen() returns or has been executed."
         " max_async_tasks 0 and -1 (no limit, like None)."
+        " Redelivery: two or three deliveries carrying the same task id, overlapping or in sequence - each is executed exactly once."
     ),
     "assumptions": [
         "asyncio semantics as implemented by BaseEventLoop (the loop is a subclass; only clock/selector are replaced)",
@@ -106,6 +107,16 @@ def scenarios(tier: str) -> List[Dict[str, Any]]:
         for a, p in ((None, 0), (1, 2), (2, 0), (2, 2)):
             for wt in ((0, 0.3) if tier == "quick" else (0, 0.1, 0.3)):
                 out.append({"A": a, "P": p, "N": None, "W": wt, "stream": "infinite", "stop": True, "msgs": _msgs(w), "level": 0})
+    # at-least-once delivery: the same task id delivered again (while the first execution is in flight or after
+    # it) is one more taken message and is executed once more - no per-id bookkeeping may swallow it
+    for w in ("vv", "vr", "vvv", "av", "sv"):
+        for a, p in ((None, 0), (2, 1), (1, 1)):
+            for stream in ("infinite", "finite"):
+                msgs = _msgs(w)
+                msgs[-1]["same_id_as"] = 0
+                if len(w) == 3:
+                    msgs[1]["same_id_as"] = 0
+                out.append({"A": a, "P": p, "N": None, "stream": stream, "stop": True, "msgs": msgs, "level": 0})
     out += fault_family(tier)
     return out
 
